@@ -13,7 +13,7 @@ from typing import Dict, List, Optional, Set, Tuple
 from oqv.astutil import branch_context, call_name, method_call
 from oqv.cfg import CFG
 from oqv.dataflow import DefUse, origin, origin_text
-from oqv.model import AnalysisError, Program, Unit, dotted, norm, walk_local
+from oqv.model import AnalysisError, Program, Unit, dotted, norm, walk_local, kw_of
 from oqv.report import Check
 
 GENERAL_SOLVERS = {"numpy.linalg.eig", "scipy.linalg.eig", "numpy.linalg.eigvals",
@@ -318,7 +318,7 @@ def e2(prog: Program, chk: Check, rule: str = "E2") -> None:
                 and call_name(c) in ("SimpleProcessTensor", "FileProcessTensor")]
         if len(ctor) != 1:
             raise AnalysisError(f"{rule}: {q} no longer constructs one process tensor")
-        kw = {k.arg: k.value for k in ctor[0].keywords}
+        kw = kw_of(ctor[0])
         for key, want in (("transform_in", "(U^dagger, U)^T"), ("transform_out", "(U, U^dagger)^T")):
             if key not in kw:
                 chk.add(rule, u, f"{call_name(ctor[0])}({key}=<missing>)", False,
